@@ -349,7 +349,7 @@ func (jenny RawTypes) formatReferenceDefaults(ref ast.Type, value any) string {
 	}
 
 	obj, ok := jenny.typeFormatter.context.LocateObjectByRef(ref.AsRef())
-	if !ok {
+	if !ok || !obj.Type.IsStruct() {
 		return ""
 	}
 
